@@ -585,8 +585,11 @@ def finish(ctx, level, level_rule, trusted_base, assumptions, build_error=None):
         "coverage": cov, "assumptions": assumptions, "wall_s": round(time.time() - ctx.t0, 2),
         "violations": len(viol_records) + (1 if (broken and not viol_records) else 0),
     }
-    os.makedirs(os.path.join(VERIF, "evidence"), exist_ok=True)
-    with open(os.path.join(VERIF, "evidence/%s.json" % pid), "w") as f:
+    # a run against a scratch copy (VERIF_REPO) must not overwrite the evidence of /repo itself
+    evdir = os.environ.get("VERIF_EVIDENCE") or (
+        os.path.join(VERIF, "evidence") if os.path.realpath(REPO) == "/repo" else os.path.join(BUILD, "evidence-scratch"))
+    os.makedirs(evdir, exist_ok=True)
+    with open(os.path.join(evdir, "%s.json" % pid), "w") as f:
         json.dump(ev, f, indent=1, default=str)
     for l in lines:
         print(l)
